@@ -97,6 +97,9 @@ def blocks(tier, seed):
             for b in range(a + 1, len(masks)):
                 out.append({"alternate": [list(masks[a]), list(masks[b])], "shape": list(shape)})
     # histories: the caller keeps ONE grid object and analyses image after image on it (all images of the grid, fresh fork per chunk)
+    # alternating ORIGINS: the same box shape / spacing / periodicity at two places (every 3x3 image, fresh fork per chunk)
+    for mask in ((True, True), (False, True), (False, False)):
+        out.append({"alternate": [list(mask), list(mask)], "shape": [3, 3], "origins": [[0.0, 0.0], [-3.7, 2.25]]})
     for pz in (False, True):
         for part in range(8):
             out.append({"shared": {"kind": "cyl", "shape": [3, 4], "R": 3.0, "z": [-1.0, 2.2], "periodic_z": pz}, "part": part})
@@ -145,7 +148,8 @@ def catalogue(variant):
 def cases(block):
     if "alternate" in block:
         shape = block["shape"]
-        ga, gb = cart(shape, block["alternate"][0]), cart(shape, block["alternate"][1])
+        oa, ob = block.get("origins", [None, None])
+        ga, gb = cart(shape, block["alternate"][0], origin=oa), cart(shape, block["alternate"][1], origin=ob)
         n = int(np.prod(shape))
         seq = []
         for bits in itertools.product((0, 1), repeat=n):
